@@ -1,7 +1,7 @@
 # Proposed CHECKS entry for C14 (paste into /verif/checks_config.py; T(...) is the helper defined there).
-# Measured (16-core sandbox): 0.30 s per case alone, 0.37 s with 4 shards in parallel (60 cases: 20-22 s wall),
-# ~0.5 s with 8 shards in parallel (200 cases: 90-116 s wall; memory-bound: up to 128^3 uint64 voxels per read).
-# quick = 50 x 4 ~ 20 s + build; thorough = 700 x 16 ~ 6-7 min.  TestC14Vote is pure (reference vote vs a second
+# Measured (16-core sandbox): 0.30-0.45 s per case alone, 0.37 s with 4 shards in parallel (60 cases: 20-22 s wall),
+# ~0.5 s with 8 shards (200 cases: 90-116 s wall), 1.0-1.25 s with 16 shards (300 cases: 277-378 s wall; CPU- and
+# memory-bound: up to 128^3 uint64 voxels per read).  quick = 50 x 4 ~ 20 s + build; thorough = 350 x 16 ~ 6-7.5 min.  TestC14Vote is pure (reference vote vs a second
 # formulation of the documented rule; 20000 cases < 1 s).
 # Findings on the unchanged tree (see props/c14/findings.go, replays under props/c14/findings/): the check fails on it
 # until their signatures are listed as known:
@@ -18,7 +18,7 @@ ENTRY = {
         "pkg": "c14",
         "level": "exploration",
         "tests": [
-            T("TestC14Pyramid", (50, 4), (700, 16)),
+            T("TestC14Pyramid", (50, 4), (350, 16)),
             T("TestC14Vote", (20000, 1), (200000, 1)),
         ],
         "required_classes": [
